@@ -68,6 +68,7 @@ type Encoder struct {
 	tiFacts     map[*Term]bool
 	loopWindows []*loopWindow
 	splits      []*Term
+	lastSendCtx *SVal
 	cryptOut    *Term
 	cryptOff    *Term
 	specPure    int
